@@ -389,6 +389,35 @@ def run(ctx: Ctx, wd, handles_only: bool = False, only_feature: str | None = Non
         # (several workers: every new state is still judged by EmitFinished exactly once, each PrintT is one atomic line; only the order of the
         # lines and which shortest path is recorded in `hist` vary, neither matters to the replay)
         tlc_must_hold(ctx, f"S2C HugrBuilder finished states {name(c)}", res, "HugrBuilder model (emission)")
+    # ---- S->C, random walks: TLC's simulation mode generates long behaviours of the same specification with every family enabled at once
+    # (NextB funnels each walk into a finished program: when the budget runs out only closing calls remain enabled); each finished state
+    # met on a walk is replayed like the exhaustive ones. This reaches program sizes and feature mixes the exhaustive runs cannot.
+    ALLF = ("load", "nested", "order", "cond", "if", "loop", "func", "cfg", "unit", "dom", "insert")
+    sims = ([] if handles_only or only_feature else
+            [(C("RootBQ", 14, 3, ("Not", "H", "Some"), ALLF), 30)] if quick else
+            [(C("RootBQ", 14, 3, ("Not", "H", "Some"), ALLF), 200), (C("RootBQ", 22, 4, ("Not", "H", "Some", "Measure"), ALLF), 120),
+             (C("Module", 14, 3, ("Not", "H"), ("func", "decl", "nested", "cond", "loop", "load")), 100)])
+    seen_walks = set()
+    inner = sink
+
+    def sim_sink(ln):
+        if not isinstance(ln, dict) or "doc" not in ln:
+            return
+        key = json.dumps(ln["hist"])
+        if key in seen_walks:
+            return
+        seen_walks.add(key)
+        if len(ln["hist"]) >= 10:
+            feats["walk>=10 calls"] += 1
+        inner(ln)
+    for c, num in sims:
+        cur_root[0] = c["root"]
+        res = run_tlc("MC_HugrBuilder", cfg(c["root"], c["k"], c["depth"], emit=True, view=False, ops=c["ops"], features=c["fe"], maxargs=c["ma"]), wd, workers=8,
+                      heap="8g", line_sink=sim_sink, timeout=5000, simulate=f"num={num}", depth=c["k"] + 2, seed=ctx.seed + 7)
+        tlc_must_hold(ctx, f"S2C HugrBuilder random walks {name(c)} num={num}", res, "HugrBuilder model (simulation)")
+    ctx.note("builder_model_walk_programs_replayed", len(seen_walks))
+    if sims and not feats["walk>=10 calls"]:
+        raise MachineryError("builder model: simulation produced no finished program of >= 10 calls")
     ctx.note("builder_model_finished_states_replayed", n[0])
     ctx.note("builder_model_features", dict(feats))
     need = (("insert:nestext", "insert:loop", "insert:cond", "insert:cfg") if only_feature == "insert" else ("nested", "cond", "loop", "cfg", "insert") if handles_only else
